@@ -50,11 +50,21 @@ class VoiceLeadingStream(Stream):
                     if nm not in have:
                         c["parts"].append([nm, [sg.rand_rnote(rng, rel=0, systems="ssshhccbba")]])
                 c["parts"].sort(key=lambda p: names.index(p[0]))
+                if i % 4 == 2:
+                    rng.shuffle(c["parts"])                 # the chords do not all list their parts in the same order
                 c["coct"] = rng.choice([0, 0, 1, -1, 2, -2])
                 c["toct"] = rng.choice([0, 0, 0, 1, -1])
                 score.append(c)
             score = sg.equalize(score)
             fixed = [nm for nm in names if rng.random() < 0.35]
+            if i % 4 == 3 and len(names) > 1:
+                # a voice that is not declared fixed rests for a whole chord (absent from it)
+                free = [nm for nm in names if nm not in fixed]
+                if free:
+                    c = score[rng.randrange(len(score))]
+                    gone = rng.choice(free)
+                    if len(c["parts"]) > 1:
+                        c["parts"] = [p2 for p2 in c["parts"] if p2[0] != gone]
             yield {"score": score, "fixed": fixed, "cof": rng.random() < 0.5, "seed": rng.randrange(1000),
                    "method": rng.choice(["voices_and_rules", "voices_and_rules", "voices", "rules", "random"]),
                    "max_iter": rng.choice([0, 5, 30]) if i % 7 else 1, "max_iter_rules": rng.choice([0, 5, 20])}
